@@ -44,6 +44,7 @@ type pipeConfig struct {
 	UseHQ                bool     `json:"use_hq"`
 	HQAddress            string   `json:"hq_address"`
 	HQBatchSize          int      `json:"hq_batch_size"`
+	HQBatchConcurrency   int      `json:"hq_batch_concurrency"`
 	Job                  string   `json:"job"`
 	MinSpaceRequired     float64  `json:"min_space_required"`
 }
@@ -120,7 +121,7 @@ func (p *pipeRun) applyConfig(inputSeeds []string) error {
 		z.UseHQ = c.UseHQ
 		z.HQAddress = c.HQAddress
 		z.HQBatchSize = c.HQBatchSize
-		z.HQBatchConcurrency = 1
+		z.HQBatchConcurrency = max(1, c.HQBatchConcurrency)
 		z.HQKey, z.HQSecret, z.HQProject = "k", "s", "verif"
 		if c.Job != "" {
 			z.Job = c.Job
